@@ -885,9 +885,20 @@ def _transient_by_construction(e: Engine, g, fx, n: Node, expr,
             return True
         # Reply(...).copy(<4xx constant>)
         if isinstance(f, ast.Attribute) and f.attr == 'copy' and expr.args:
-            code = common.reply_constant_code(e, expr.args[0], n.ctx)
+            a0, fr0 = common.deref(expr.args[0], n.frame)
+            code = common.reply_constant_code(e, a0, fr0.ctx)
             if code and code.startswith('4'):
                 return True
+        # a helper of the same object all of whose returns are transient
+        vals = common.values_of(g, expr, n.frame)
+        if not (len(vals) == 1 and vals[0][0] is expr):
+            def node_of(fr):
+                for m in g.nodes:
+                    if m.frame is fr:
+                        return m
+                return n
+            return all(_transient_by_construction(
+                e, g, fx, node_of(fr2), v2, depth + 1) for v2, fr2 in vals)
         return False
     p = path_of(expr, n.frame)
     if p is None:
@@ -1032,7 +1043,11 @@ def n4_catch_all(e: Engine, rep: Report):
                       loc=r.loc(), reason="constant 4xx Reply, or reused "
                       "only under code == '421'")
     ctx = e.method_ctx(SMTPC, '_run')
-    g = e.build(ctx, raises=pool.make_raises(e), assert_raises=False)
+    g = e.build(ctx, raises=pool.make_raises(e), assert_raises=False,
+                inline=e.inline_same_self(
+                    deny=['poll', '_connect', '_handshake', '_deliver',
+                          '_disconnect', '_check_server_timeout']),
+                max_depth=4)
     fx = e.facts(g)
     where = ctx.func.qname
     arms = [h for h in g.of_kind('handler') if h.frame is g.entry.frame and
@@ -1050,11 +1065,25 @@ def n4_catch_all(e: Engine, rep: Report):
                 defs = [s for s in inside if s.kind == 'stmt' and
                         isinstance(s.ast, ast.Assign) and
                         path_of(s.ast.targets[0], s.frame) == p]
-                ok = bool(defs) and all(
-                    (isinstance(d.ast.value, ast.Call) and
-                     e.call_name_of(d.ast.value) == '_get_error_reply') or
-                    _transient_by_construction(e, g, fx, d, d.ast.value)
-                    for d in defs)
+
+                def from_error_reply(v, fr):
+                    # _get_error_reply(...) - judged on its own above - also
+                    # when it is reached through a bound callable
+                    if isinstance(v, ast.Call) and \
+                            e.call_name_of(v) == '_get_error_reply':
+                        return True
+                    kids = [c for c in fr.children if c.call is v or
+                            getattr(c.call, '_orig', None) is v]
+                    return any(c.ctx.func.name == '_get_error_reply'
+                               for c in kids)
+                if defs:
+                    ok = all(from_error_reply(d.ast.value, d.frame) or
+                             _transient_by_construction(e, g, fx, d,
+                                                        d.ast.value)
+                             for d in defs)
+                else:
+                    ok = from_error_reply(a, m.frame) or \
+                        _transient_by_construction(e, g, fx, m, a)
                 n_f += 1
                 rep.evaluations += 1
                 rep.check(ok, 'N4', where,
